@@ -151,21 +151,25 @@ def rendered(diag, sources) -> tuple[bool, str, str]:
     return ok, "" if ok else "header does not show the title", text
 
 
-def _validate_isolated(pkg) -> int | None:
-    """Run the validator in a forked child. Returns None if it finished (valid or not - the
-    caller then validates in-process for the message) or the signal that killed it."""
+def _validate_isolated(pkg):
+    """Run the validator in a forked child (it aborts the process on some packages).
+    Returns "ok", "invalid" (the caller then validates in-process for the message) or the
+    number of the signal that killed the child."""
     import os
 
     pid = os.fork()
     if pid == 0:
+        code = 0
         try:
             _set_alarm(0)
             gp.validate(pkg)
         except BaseException:  # noqa: BLE001
-            pass
-        os._exit(0)
+            code = 3
+        os._exit(code)
     _, status = os.waitpid(pid, 0)
-    return os.WTERMSIG(status) if os.WIFSIGNALED(status) else None
+    if os.WIFSIGNALED(status):
+        return os.WTERMSIG(status)
+    return "ok" if os.WEXITSTATUS(status) == 0 else "invalid"
 
 
 def lifecycle(defn, own_file, ranges, validate=True, mode="compile", isolate=False) -> tuple[list, dict]:
@@ -212,13 +216,13 @@ def _lifecycle(defn, own_file, ranges, validate=True, mode="compile", isolate=Fa
     events = [ev("parse", "ok"), ev("check", "ok"), ev("compile", "ok")]
     if validate:
         try:
-            if isolate:
-                sig = _validate_isolated(pkg)
-                if sig is not None:
-                    info.update(msg=f"hugr validator process killed by signal {sig} while loading the compiled package")
-                    events.append(ev("validate", "invalid", cls="HugrInvalid", site=f"validator died (signal {sig})"))
-                    return events, info
-            gp.validate(pkg)
+            verdict = _validate_isolated(pkg) if isolate else "invalid"
+            if isinstance(verdict, int):
+                info.update(msg=f"hugr validator process killed by signal {verdict} while loading the compiled package")
+                events.append(ev("validate", "invalid", cls="HugrInvalid", site=f"validator died (signal {verdict})"))
+                return events, info
+            if verdict != "ok":
+                gp.validate(pkg)  # raises with the validator's message (or passes when not isolated)
             events.append(ev("validate", "ok"))
         except _Timeout:
             _set_alarm(0)
@@ -348,6 +352,9 @@ def map_programs(jobs, procs: int = 16, chunk: int = 30):
     import pool
 
     pool._init()  # import guppylang + std once; children inherit it by fork
+    # warm-up in the parent: lazy imports and pydantic model construction of the serialiser/validator
+    run_program({"id": -1, "src": "@guppy\ndef main(q: qubit @ owned, x: int) -> bool:\n    h(q)\n    return measure(q) and x > 0\n",
+                 "experimental": False, "isolate": False, "timeout": 600})
     ctx = mp.get_context("fork")
     results: dict = {}
     todo = [list(range(i, min(i + chunk, len(jobs)))) for i in range(0, len(jobs), chunk)]
